@@ -18,11 +18,11 @@ from vplib import simlib
 from vplib.simlib import SimRunner, basic_problems
 
 MANIFEST = dict(
-    category="exploration",
-    text="Schedule exploration only (the Coq protocol model M-Sys and the theorems message_conservation / per_sender_fifo / spawner_gets_pid / no_lost_wakeup are pending): generated message-passing scenarios whose receivers log (sender, seq) are run on the real Environment/Worker/Repl code in a deterministic simulator under seeded adversarial schedules (starvation, partial queue visibility, quantum down to 1, 1-5 workers); checked: every message received exactly once and in per-sender order, nothing left over, and at quiescence no parked process has a ready source (dump-based checks + a spurious-wake-up probe), no hang, panic or Err.",
+    category="proof",
+    text="Coq theorems on the protocol model M-Sys (coq/theories/sys/Proto.v: Executor scheduling state, Worker, Environment and transports as the code is; process behaviour and HashMap iteration orders are universally quantified inputs), for every schedule and every oracle: message_conservation (every stamped message sent is, with multiplicity, in exactly one of event queue / command queue / arrival log) and stamps_unique (no stamp issued twice), the order-preserving Worker::step hop lemma, and the kernel-computed refutation of spawner_gets_pid by the F71 schedule. PARTIAL: per_sender_fifo (global composition of the order-preserving hops), spawner_gets_pid outside the F71 class and no_lost_wakeup (Inv_parked) are stated in props/C04.v but not proved; they are checked on the real code by the implementation-level oracles (message log exactly-once/FIFO, quiescence + spurious-wake-up probe) over seeded adversarial schedules. The model is tied to the code by replaying qv_sim traces of the real Environment/Workers through the extracted model with the state compared after every scheduler action.",
     design_ref="§4, §5 C04",
-    note="Trusted: the simulator's transports and oracles (harness/src/bin/qv_sim), the schedule abstraction of DESIGN §4. The lost-wake-up probe injects an UpdateAwaitResults without results (=> Executor::mark_active), which is a no-op for a correctly parked select.",
-    technique="bounded schedule exploration of the real runtime in a deterministic simulator with implementation-level oracles (message log, quiescence), ddmin-shrunk replays",
+    note="Trusted: Coq kernel, extraction (ExtrOcamlBasic), OCaml driver, the simulator's transports and oracles (harness/src/bin/qv_sim), the trace-to-oracle conversion (vplib/simlib.py), the schedule abstraction of DESIGN §4. Effects are outside M-Sys (traces with effects are not replayed). Known findings F70, F71 (F71 is also the refutation witness).",
+    technique="Coq proof over all schedules of a protocol model (invariants by induction on the schedule) + model/code correspondence by trace replay + schedule exploration of the real runtime with implementation-level oracles",
 )
 
 
@@ -65,7 +65,7 @@ def run(ctx):
     ok, drv = simlib.proof_layer(ctx)
     res, meta, failures = simlib.explore(ctx, runner, scenarios, nsched, judge, route=route)
     if drv:
-        step = max(1, len(res) // ctx.n(90, 1500))
+        step = max(1, len(res) // ctx.n(36, 600))
         sample = [simlib.case_line(scenarios[meta[i][0]]["src"], meta[i][1][0], meta[i][1][1], meta[i][2] if meta[i][2] not in ("fair", "corpus") else "")
                   for i in range(0, len(meta), step) if meta[i][2] != "corpus"]
         simlib.correspondence(ctx, exe, drv, sample, lambda s: basic_problems(s))
